@@ -36,7 +36,7 @@ def body_factory(tier, seed):
 
 
 EXTRA = None
-KINDS = ("unhandled","id-unhandled","corpus-D2")
+KINDS = ("unhandled","id-unhandled","corpus-D2","after-only")
 
 
 def run(rep, tier, seed):
